@@ -50,6 +50,44 @@ def run_case(c):
             with patched_clock(utc, i["offset"]):
                 return {"ok": tools.pretty_next_run(start, days) == "Due today at " + start}
         return one(start, days, i["uday"], i["usod"], i["offset"])
+    if k == "ticking":
+        # a clock that advances with every reading, started just before a local midnight / minute / hour change: the text must be right
+        # for SOME instant between the first and the last reading (code that reads the clock twice can combine yesterday's weekday
+        # with today's time of day)
+        members = list(Days)
+        n = 0
+        for (y, mo, d) in ((2026, 3, 1), (2026, 3, 2), (2026, 12, 31), (2027, 1, 3)):
+            for (hh, mm, ss) in ((23, 59, 59), (11, 59, 59), (6, 29, 59)):
+                for sel in ([], [0], [1], [6], [0, 6], [2, 3], [0, 1, 2, 3, 4, 5, 6]):
+                    for start in ("00:00", "00:01", "06:30", "12:00", "23:59"):
+                        base = datetime.datetime(y, mo, d, hh, mm, ss, 999500)
+                        reads = []
+
+                        class Ticking(datetime.datetime):
+                            @classmethod
+                            def now(cls, tz=None):
+                                t = base + datetime.timedelta(milliseconds=len(reads))
+                                reads.append(t)
+                                return cls(t.year, t.month, t.day, t.hour, t.minute, t.second, t.microsecond)
+
+                            @classmethod
+                            def utcnow(cls):
+                                return cls.now()
+                        days = {members[j] for j in sel}
+                        saved = tools.datetime
+                        tools.datetime = Ticking
+                        try:
+                            got = tools.pretty_next_run(start, set(days))
+                        finally:
+                            tools.datetime = saved
+                        n += 1
+                        instants = reads or [base]
+                        span = [instants[0], instants[-1]] + ([datetime.datetime(instants[-1].year, instants[-1].month, instants[-1].day, instants[-1].hour, instants[-1].minute)] if len(instants) > 1 else [])
+                        ok = any(got == spec.next_run_spec(start, set(days), t.weekday(), t.hour * 60 + t.minute) for t in span if instants[0] <= t <= instants[-1] or t in instants)
+                        if not ok:
+                            return {"ok": False, "evaluations": n, "detail": f"clock read {len(reads)} time(s) from {instants[0]} on: text {got!r} is right for no instant between the readings",
+                                    "inputs": {"start": start, "days": sorted(x.name for x in days)}}
+        return {"ok": True, "evaluations": n}
     if k == "table":
         rnd = random.Random(i["seed"])
         members = list(Days)
@@ -69,6 +107,16 @@ def run_case(c):
                         for combo in itertools.combinations(members, size):
                             for sm in (local_min, (local_min + 1) % 1440, (local_min - 1) % 1440):
                                 start = f"{sm // 60:02d}:{sm % 60:02d}"
+                                r = one(start, set(combo), uday, usod, off)
+                                n += 1
+                                if not r["ok"]:
+                                    r.update(evaluations=n, case={"prop": "C13", "kind": "one", "inputs": {
+                                        "start": start, "days": canon(set(combo)), "uday": uday, "usod": usod, "offset": off}})
+                                    return r
+                    # starts far from now, in the spellings the %H:%M format also accepts (no leading zeros): '9:00', '7:5', '0:30'
+                    for combo in ([], [members[(uday + 3) % 7]], members[:], [members[rnd.randrange(7)], members[rnd.randrange(7)]]):
+                        for sm in ((local_min + 510) % 1440, (local_min - 510) % 1440, 30, 545, 425):
+                            for start in (f"{sm // 60}:{sm % 60:02d}", f"{sm // 60}:{sm % 60}", f"{sm // 60:02d}:{sm % 60}"):
                                 r = one(start, set(combo), uday, usod, off)
                                 n += 1
                                 if not r["ok"]:
